@@ -10,6 +10,7 @@ import (
 	"errors"
 	"fmt"
 	"os"
+	"runtime"
 	"sync"
 	"sync/atomic"
 	"time"
@@ -465,6 +466,86 @@ func runKillInCall(twice bool) {
 }
 
 // ---------------------------------------------------------------------------
+// Init-window cases: the pid escapes from a running Init callback (Init publishes Process.PID()) and an
+// outsider acts on it before Init returns.  Whatever the framework answers (unknown process is fine), no
+// other callback of that process may run beside Init.
+
+func runActDuringInit(action string) {
+	id := "D/actor/init/" + action
+	if !hk.Want(id) {
+		return
+	}
+	r := &result{}
+	h := probeHooks()
+	pidc := make(chan gen.PID, 1)
+	release := make(chan struct{})
+	h.Init = func(p *actors.Probe, args ...any) error {
+		pidc <- p.PID()
+		<-release
+		return nil
+	}
+	f, inst := actors.NewProbe(id, h)
+	type sres struct {
+		pid gen.PID
+		err error
+	}
+	done := make(chan sres, 1)
+	go func() {
+		pid, err := node.Spawn(f, gen.ProcessOptions{})
+		done <- sres{pid, err}
+	}()
+	fired := false
+	var pid gen.PID
+	select {
+	case pid = <-pidc:
+		fired = true
+	case <-time.After(10 * time.Second):
+		r.incon = "watchdog: Init never entered"
+	}
+	if fired {
+		switch action {
+		case "kill":
+			node.Kill(pid)
+		case "kill2":
+			node.Kill(pid)
+			node.Kill(pid)
+		case "killsend":
+			node.Kill(pid)
+			node.Send(pid, work{ID: 1})
+		case "sendkill":
+			node.Send(pid, work{ID: 1})
+			node.Kill(pid)
+		case "exit":
+			node.SendExit(pid, errors.New("boom"))
+		case "exitkill":
+			node.SendExit(pid, errors.New("boom"))
+			node.Kill(pid)
+		}
+		// give a wrongly started Terminate/handler goroutine the chance to run while Init is still parked
+		for k := 0; k < 200; k++ {
+			runtime.Gosched()
+		}
+		spin(2000)
+	}
+	close(release)
+	select {
+	case sr := <-done:
+		if sr.err == nil {
+			node.Send(sr.pid, work{ID: 2})
+			waitIdle(node, []gen.PID{sr.pid}, []*actors.Inst{inst})
+			node.Kill(sr.pid)
+		}
+	case <-time.After(10 * time.Second):
+		if r.incon == "" {
+			r.incon = "watchdog: Spawn did not return"
+		}
+	}
+	hk.WaitUntil(2*time.Second, func() bool { return !inst.InCallback() })
+	checkInst(inst, r)
+	finish(id, "directed", id, fired, int64(len(inst.Events())), r, map[string]any{"events": fmt.Sprint(inst.Events())})
+}
+
+// ---------------------------------------------------------------------------
 // meta process directed cases
 
 func runMetaDirected(park, action string) {
@@ -773,6 +854,9 @@ func main() {
 	}
 	runKillInCall(false)
 	runKillInCall(true)
+	for _, action := range []string{"kill", "kill2", "killsend", "sendkill", "exit", "exitkill"} {
+		runActDuringInit(action)
+	}
 	for _, park := range []string{"tosleep", "recheck", "handler"} {
 		for _, action := range []string{"send", "send2", "stop", "killparent", "stopsend"} {
 			runMetaDirected(park, action)
